@@ -6,8 +6,6 @@ package main
 import (
 	"fmt"
 	"strings"
-
-	goahttp "goa.design/goa/v3/http"
 )
 
 // ---------------------------------------------------------------------------------------
@@ -30,7 +28,7 @@ type Body struct {
 
 type valueSpec struct {
 	ID   string
-	Kind string // struct | string | pstring | bytes | map | errresp | nil-pstring
+	Kind string // struct | string | pstring | bytes | map | errresp | svcerr-<construction> | nil-pstring
 	// Make builds a fresh value exactly as generated code hands it to Encoder.Encode.
 	Make func() any
 	// Target builds a fresh pointer the peer decodes into (`var body T; Decode(&body)`).
@@ -38,6 +36,20 @@ type valueSpec struct {
 	// NoValue marks the nil *string: there is no value to recover, only "no panic" applies.
 	NoValue bool
 	Quick   bool
+
+	// Err, when set, makes the value an error answered through the default error path
+	// goahttp.ErrorEncoder(encoder, nil)(ctx, w, Err()) instead of Encoder.Encode(Make()).
+	Err func() error
+	// Orig lists the acceptable originals in harness-owned types (what the peer must recover);
+	// default: Make(). RefTarget is the pointer the REFERENCE codecs decode into (default Target());
+	// Norm maps a filled Target / RefTarget to the form of the originals (default identity).
+	Orig      func() []any
+	RefTarget func() any
+	Norm      func(any) any
+	// AnyNameID: the name and the ID of the response are goa's choice (errors that are no ServiceError).
+	AnyNameID bool
+
+	wants []string // canon of every acceptable original (filled by allValues)
 }
 
 func sp(s string) *string { return &s }
@@ -76,11 +88,7 @@ func allValues() []valueSpec {
 	out = append(out, stringValue("plain", "hello world", true)...)
 	out = append(out, bytesValue("plain", []byte("raw bytes"), true))
 	out = append(out, mapValue("two", map[string]string{"a": "1", "b": "two"}, true))
-	out = append(out, valueSpec{ID: "errresp/fault", Kind: "errresp", Quick: true,
-		Make: func() any {
-			return &goahttp.ErrorResponse{Name: "boom", ID: "abc123", Message: "it <broke> & burned", Fault: true}
-		},
-		Target: func() any { return new(goahttp.ErrorResponse) }})
+	out = append(out, errorValues()...) // errvalues.go: goahttp.ErrorResponse directly and through the default error path
 	out = append(out, valueSpec{ID: "pstring/nil", Kind: "nil-pstring", NoValue: true, Quick: true,
 		Make: func() any { return (*string)(nil) }, Target: func() any { return new(string) }})
 	// thorough extras
@@ -104,11 +112,9 @@ func allValues() []valueSpec {
 	out = append(out, bytesValue("jsonish", []byte(`{"a":1}`), false))
 	out = append(out, mapValue("empty", map[string]string{}, false))
 	out = append(out, mapValue("one", map[string]string{"k": "v <&>"}, false))
-	out = append(out, valueSpec{ID: "errresp/timeout", Kind: "errresp",
-		Make: func() any {
-			return &goahttp.ErrorResponse{Name: "slow", ID: "id-2", Message: "", Timeout: true, Temporary: true}
-		},
-		Target: func() any { return new(goahttp.ErrorResponse) }})
+	for i := range out {
+		out[i].wants = canonAll(out[i].origs())
+	}
 	return out
 }
 
@@ -126,6 +132,12 @@ func pick(vs []valueSpec, thorough bool) []valueSpec {
 }
 
 func valueByID(id string) *valueSpec {
+	switch id { // names used by replay files written before the error menus were completed
+	case "errresp/fault":
+		id = "errresp/full/to0-tmp0-f1"
+	case "errresp/timeout":
+		id = "errresp/empty/to1-tmp1-f0"
+	}
 	for _, v := range allValues() {
 		if v.ID == id {
 			v := v
